@@ -568,6 +568,14 @@ class Evaluator:
             if isinstance(cur, Num) and isinstance(v, Num) and cur is not v and cur.kind != "time" \
                     and (cur.shape or cur.tag == "data" or cur.kind in ("array", "quantity")) and cur.tag != "unit":
                 self._rebind_aliases(fr, cur, v)
+                # an in-place operator on a VIEW writes into the array it was taken from
+                root, hops = cur, 0
+                while getattr(root, "base", None) is not None and hops < 20:
+                    root, hops = root.base, hops + 1
+                if root is not cur:
+                    written = root.like(F["Opq"](sp.Symbol("written_through_a_view"), root.expr), unit=root.unit, cls=root.cls, tag=root.tag)
+                    self.trace.append(("inplace-on-view", norm(s)[:80], root, written))
+                    self._rebind_aliases(fr, root, written)
             return None
         if isinstance(s, ast.Return):
             return Outcome("return", self.eval(s.value, fr) if s.value is not None else NONE)
